@@ -134,6 +134,17 @@ def modelStep (s : State) (w : List String) : Option (State × String × Bool ×
     let (s', o) := step false s (.unregName k)
     let x := getA s k
     pure (s', showObs o, (x.map (fun x => x.remote && x.name.isSome)).getD false, [])
+  | ["drain", k] => do
+    let k ← k.toNat?
+    let st0 := statusOf s k
+    let (s', o) := step false s (.drain k)
+    pure (s', showObs o, decide (st0 ≥ stopping), [])
+  | ["late", k, how] => do
+    let k ← k.toNat?
+    if !exists? k then pure (s, "noactor", false, [])
+    else if statusOf s k < stopping then pure (s, "notparked", false, [])
+    else if how == "drain" then pure ((step false s (.drain k)).1, "ok", true, [])
+    else pure (s, "ok", true, [])
   | "skip" :: _ => some (s, "ok", false, [])
   -- t uncontrolled threads race for one fresh name: C10.exactly_one_winner, whereIs_sound,
   -- name_free_after_exit say what every such round must answer
@@ -179,6 +190,14 @@ def modelStep (s : State) (w : List String) : Option (State × String × Bool ×
       let x := getA s k
       pure (runOps s (exitOps k), "ok", (x.map (fun x => x.remote && x.name.isSome)).getD false,
             evOps s (exitOps k))
+  | ["killwait", k] | ["stopwait", k] => do
+    -- two parties end the actor back to back; the second one waits: exit, then wait() returns
+    let k ← k.toNat?
+    if !exists? k then pure (s, "noactor", false, [])
+    else if statusOf s k ≥ stopping then pure (s, "notlive", false, [])
+    else
+      let s' := runOps s (exitOps k)
+      pure (s', showObs (step false s' (.waitRet k)).2, true, evOps s (exitOps k))
   | ["exitbegin", k] => do
     let k ← k.toNat?
     if !exists? k then pure (s, "noactor", false, [])
@@ -247,12 +266,16 @@ def step (d : DState) (op impl : String) : DState × StepOut :=
       let orcRace := match w with
         | ["race", _] => if ians == "winners=1 agree=1 free=1" then [] else ["race-not-exactly-one-winner"]
         | _ => []
+      let orcWait2 := match w with
+        | [kw, _] => if (kw == "killwait" || kw == "stopwait") && ians == "early"
+            then ["wait-returned-before-stopped"] else []
+        | _ => []
       let orcWait := match w, v with
         | ["waitret", k], some v =>
           match k.toNat? with
           | some k =>
             if v.names.any (·.2 == k) then ["name-held-after-wait-returned"] else
-            if ians != "ok" then ["wait-returned-before-stopped"] else []
+            if ians == "pending" || ians == "early" then ["wait-returned-before-stopped"] else []
           | none => []
         | _, _ => []
       let waited := match w with
@@ -265,7 +288,7 @@ def step (d : DState) (op impl : String) : DState × StepOut :=
       let rereg := after.any (fun n => !before.contains n && d.released.contains n)
       ({ d with s := s', prev := v, waited, released },
        { model := s!"{ans} | {showView d.pidOn mv}",
-         oracle := orcView ++ orcReg ++ orcLookup ++ orcWait ++ orcRace ++ orcDup,
+         oracle := orcView ++ orcReg ++ orcLookup ++ orcWait ++ orcWait2 ++ orcRace ++ orcDup,
          nontrivial := interesting || rereg })
 
 def run (ops impl : Array String) : IO Tally :=
